@@ -44,7 +44,7 @@ class Profile(Lower):
     ]
 
     def file_prelude(self):
-        return ['enum { BL_T_Object = 16 };',
+        return ['enum { BL_T_Int = 1, BL_T_Long = 2, BL_T_Object = 16 };   /* only the identity of the tags matters: the lowered code compares with Object only */',
                 'typedef struct { int type; bl_cname className; bl_objid objectValue; } Value;',
                 'typedef struct { Value value; _Bool tracked; _Bool initialized; } VarEntry;']
 
@@ -307,6 +307,10 @@ CONTRACTS = {
             E('assign.scope_walk.other_entries_untouched', '(gk < SCMAX && !(g_hit != 0 && gk == g_hit_scope && g_e == FIND(gk, name))) ==> __CPROVER_equal(g_entries[gk][g_e], __CPROVER_old(g_entries[gk][g_e]))', ['C09']),
             # the property (C09): every scope below the frame base (the caller's locals) is unchanged
             E('assign.frame_below_base_unchanged', '(g_hit != 0) ==> (g_hit_scope >= g_fb)', ['C09']),
+            # C07 ("int -> long promotion", "long is 64-bit"; language guide: "int values can widen to long in assignments"): a
+            # variable that holds a long keeps holding a long when an int is assigned to it - otherwise the next `x + 1`
+            # is computed in 32 bits
+            E('assign.int_stored_in_a_long_variable_is_widened', '(g_hit != 0 && gk == g_hit_scope && g_e == FIND(gk, name) && g_old_entry.value.type == BL_T_Long && v.type == BL_T_Int) ==> g_entries[gk][g_e].value.type == BL_T_Long', ['C07']),
         ],
         'prologue': 'g_find_gk = FIND(gk, name); g_old_entry = g_entries[gk][g_e];',
         'after_decl': {'fit': 'if (fit != BL_MAP_END) { g_hit = 1; g_hit_scope = it - 1; }'},
@@ -341,7 +345,7 @@ CONTRACTS['bind_params_callMethod'] = bind_contract('callMethod', '')
 CONTRACTS['bind_params_ctor'] = bind_contract('runConstructorChain', 'ctor != 0 && ')
 HARNESSES = [
     dict(name='lookup_walk', fn='lookup_walk', replace=['scope_stub_find'], flags=[], props=['C09', 'C12'], timeout=120, bounded_replace=['scope_stub_find'], bounded_defs=['SCMAX=3'], unwind=5, canaries=[('1', 'return')]),
-    dict(name='assign_walk', fn='assign_walk', replace=['scope_stub_find'], flags=[], props=['C09', 'C12'], timeout=600, bounded_replace=['scope_stub_find'], bounded_defs=['SCMAX=3'], unwind=5, canaries=[('1', 'return')]),
+    dict(name='assign_walk', fn='assign_walk', replace=['scope_stub_find'], flags=[], props=['C09', 'C12', 'C07'], timeout=600, bounded_replace=['scope_stub_find'], bounded_defs=['SCMAX=3'], unwind=5, canaries=[('1', 'return')]),
 ] + [dict(name=c, fn=c, replace=['scope_assign'], flags=[], props=['C09', 'C12'], timeout=300, bounded_replace=['scope_assign'], bounded_defs=['SCMAX=3', 'PMAX=3'], unwind=5, canaries=[('g_top_has', 'a parameter was bound')])
      for c in ('bind_params_call', 'bind_params_callMethod', 'bind_params_ctor')]
 
@@ -373,8 +377,11 @@ def replay_counterexample(pu, h, label, failure, work, tier, seed):
     if pick:
         m = re.search(r'label=(\S+)', pick[0])
         vals, first = _nat.trace_values('', failure)
+        sig = 'name bound only in a scope below the frame base (caller local) - dynamic scoping of %s' % h['fn'].replace('_walk', '')
+        if 'widened' in m.group(1):
+            sig = 'Int value stored by assign() into a variable that holds a Long keeps its Int tag (32-bit arithmetic afterwards)'
         return dict(failing_input_found=True, failing_input=pick[0], native_failures=fails[:4], oracle_label=m.group(1),
-                    signature='name bound only in a scope below the frame base (caller local) - dynamic scoping of %s' % h['fn'].replace('_walk', ''),
+                    signature=sig,
                     reproduce_args=['sweep'], reproduce='bin/check <property> --replay <this file>', replay_inputs_tried=['sweep'], matched_same_obligation=bool(same))
     return dict(failing_input_found=False, replay_inputs_tried=['sweep'], signature='')
 
